@@ -81,8 +81,13 @@ IdleKernels(R, s) == { k \in R : k.stream = s /\ k.cat \in KernelCats }
 \* strict FIFO: no overlap and no two activities of a stream starting at the same instant
 StrictSerial(R) == \A a, b \in { k \in R : OnStream(k) /\ k.cat \in KernelCats } :
                       (a # b /\ a.stream = b.stream) => (DisjointSpans(a, b) /\ a.ts # b.ts)
-Pred(R, k) == LET before == { p \in IdleKernels(R, k.stream) : p.ts < k.ts }
-              IN IF before = {} THEN {} ELSE { CHOOSE p \in before : \A q \in before : q.ts <= p.ts }
+\* order of a stream's activities: by start; a zero-length activity precedes the activity that starts at the instant it occupies
+Before(p, k) == p.ts < k.ts \/ (p.ts = k.ts /\ p.dur < k.dur)
+\* C06's domain: no overlap; two activities of a stream start at the same instant only if exactly one of them has zero length
+SerialWithTies(R) == \A a, b \in { k \in R : OnStream(k) /\ k.cat \in KernelCats } :
+                      (a # b /\ a.stream = b.stream) => (DisjointSpans(a, b) /\ (a.ts # b.ts \/ (a.dur = 0) # (b.dur = 0)))
+Pred(R, k) == LET before == { p \in IdleKernels(R, k.stream) : Before(p, k) }
+              IN IF before = {} THEN {} ELSE { CHOOSE p \in before : \A q \in before : ~Before(p, q) }
 GapCat(R, k, p, thr) ==
     IF k.link > 0 /\ ById(R, k.link).ts > End(p) THEN "host_wait"
     ELSE IF k.ts - End(p) < thr THEN "kernel_wait" ELSE "other"
